@@ -66,6 +66,8 @@ fn mac_of(ip: [u8; 4]) -> [u8; 6] {
 }
 const WATCHDOG_MSG: &str = "C19-watchdog: device call budget exceeded in one poll";
 const DEV_BUDGET: u64 = 4000;
+/// idle time (no poll) before a later start_query
+const START_GAPS_MS: [u32; 6] = [0, 500, 5_000, 10_000, 11_000, 60_000];
 
 // ---------------------------------------------------------------------------------------
 // device with a call budget (a poll that keeps calling the device forever is a loop)
@@ -133,8 +135,9 @@ pub struct CfgInner {
     label: String,
     net: Net,
     alpha: Alpha,
-    /// the second query is started by the explorer at a later instant
+    /// queries after the first `n0` are started by the explorer at a later instant
     staggered: bool,
+    n0: usize,
     /// per query, on the unimpaired link: send instants and failure instant relative to its start
     /// when the query runs ALONE and unanswered on this tree, polled at poll_at
     alone: Vec<(Vec<i64>, i64)>,
@@ -200,7 +203,8 @@ fn make_cfg_full(label: &str, n_servers: usize, queries: &[(&str, u16)], alpha: 
         net,
         alpha,
         staggered,
-        alone: if net == Net::Ip && queries.len() > 1 { queries.iter().map(|q| run_alone(n_servers, *q)).collect() } else { vec![] },
+        n0: if staggered { queries.len() - 1 } else { queries.len() },
+        alone: if net == Net::Ip && (queries.len() > 1 || staggered) { queries.iter().map(|q| run_alone(n_servers, *q)).collect() } else { vec![] },
         servers,
         queries: queries.iter().map(|(n, t)| (n.to_string(), *t)).collect(),
         names,
@@ -244,6 +248,7 @@ fn base_spec(ci: &CfgInner) -> RSpec {
         ans: Ans::AFor(Nm::Q),
         enc: Enc::Back,
         cut: None,
+        cnt: Cnt::Honest,
     }
 }
 
@@ -275,6 +280,8 @@ fn alphabet(ci: &CfgInner, qi: usize) -> (Vec<RSpec>, BTreeMap<String, usize>) {
         add("mini", RSpec { enc: Enc::SelfQ, ..base }, &mut v);
         add("mini", RSpec { ans: Ans::BigForeign, ..base }, &mut v);
         add("mini", RSpec { ans: Ans::BigCname, ..base }, &mut v);
+        add("mini", RSpec { cnt: Cnt::Qd(0), enc: Enc::Plain, ..base }, &mut v);
+        add("mini", RSpec { cnt: Cnt::Qd(2), ..base }, &mut v);
         return (v, groups);
     }
     // G1: matching dimensions (source address x source port x destination port x txid x question)
@@ -385,6 +392,19 @@ fn alphabet(ci: &CfgInner, qi: usize) -> (Vec<RSpec>, BTreeMap<String, usize>) {
         }
     }
     g8_large(&base, &len_of, &mut |s| add("g8_large_responses_pointers_beyond_0x400", s, &mut v));
+    // G9: header counts that disagree with the body. A query may only complete from a response
+    // with QDCOUNT = 1 whose one question matches.
+    for ans in [Ans::AFor(Nm::Q), Ans::Cname1In] {
+        for enc in [Enc::Back, Enc::Plain] {
+            for cnt in [Cnt::Qd(0), Cnt::Qd(2), Cnt::Qd(0xffff), Cnt::An0, Cnt::AnMore] {
+                add("g9_header_counts", RSpec { ans, enc, cnt, ..base }, &mut v);
+            }
+            // the question really removed: answers directly after the header, owner = queried name
+            for cnt in [Cnt::Honest, Cnt::Qd(1), Cnt::An0] {
+                add("g9_header_counts", RSpec { ans, enc, cnt, q: QSec::None, ..base }, &mut v);
+            }
+        }
+    }
     (v, groups)
 }
 
@@ -434,9 +454,19 @@ fn configs(tier: Tier) -> Vec<(DnsCfg, usize)> {
         if ns > 1 {
             v.push((make_cfg_full("2q-staggered-A+A-1srv/mini", 1, &[a, ("de.c", T_A)], Alpha::Mini, Net::Ip, true), 8));
         }
+        // the interface sits idle (no poll) for 0 / 0.5 / 5 / 10 / 11 / 60 s before start_query
+        v.push((make_cfg_full("1q-idle-gap-A/mini", ns, &[a], Alpha::Mini, Net::Ip, true), 8));
+        if ns > 1 {
+            v.push((make_cfg_full("1q-idle-gap-A-1srv/mini", 1, &[a], Alpha::Mini, Net::Ip, true), 8));
+        }
     } else {
         v.push((make_cfg_full("2q-staggered-A+A/mini", ns, &[a, ("de.c", T_A)], Alpha::Mini, Net::Ip, true), 48));
         v.push((make_cfg_full("2q-staggered-A+A/reduced", ns, &[a, ("de.c", T_A)], Alpha::Reduced, Net::Ip, true), 6));
+        v.push((make_cfg_full("1q-idle-gap-A/mini", ns, &[a], Alpha::Mini, Net::Ip, true), 48));
+        v.push((make_cfg_full("1q-idle-gap-A/reduced", ns, &[a], Alpha::Reduced, Net::Ip, true), 5));
+        if ns > 1 {
+            v.push((make_cfg_full("1q-idle-gap-A-1srv/mini", 1, &[a], Alpha::Mini, Net::Ip, true), 48));
+        }
         if ns > 1 {
             v.push((make_cfg_full("2q-staggered-A+A-1srv/mini", 1, &[a, ("de.c", T_A)], Alpha::Mini, Net::Ip, true), 48));
         }
@@ -485,9 +515,10 @@ pub enum Ev {
     /// (back-pressure) the device accepts frames again / refuses them again
     Unblock,
     Block,
-    /// (staggered configurations) the application starts the second query now (false) or half a
-    /// second from now (true), then polls
-    StartQuery2(bool),
+    /// (staggered / idle-gap configurations) the clock advances by this many milliseconds WITHOUT a
+    /// poll (only allowed while no poll is due before), then the application starts the next
+    /// not-yet-started query and polls
+    StartNext(u32),
 }
 
 #[derive(Clone, Debug, PartialEq, Eq)]
@@ -847,6 +878,13 @@ impl DnsH {
             if viol.is_none() {
                 viol = Self::schedule_short(m, k, "moving to the next server");
             }
+            // "moving to the next server after 10 s": a query starts with the first configured server
+            if viol.is_none() && m.cur_dst.is_empty() && !mdns && dst[..] != cfg.0.servers[0][..] {
+                viol = Some((
+                    "timing/first-server-skipped",
+                    format!("query {} (started at {} us): its first datagram (t={} us) goes to {:?}, not to the first configured server {:?}", k, m.started, ts, dst, cfg.0.servers[0]),
+                ));
+            }
             m.cur_dst = dst.clone();
             m.cur_dst_first = ts;
             m.last_gap = 0;
@@ -939,6 +977,10 @@ impl DnsH {
         if !q.wire.iter().any(|w| w.0 == v.txid) {
             return Err("wrong-transaction-id");
         }
+        if v.qdcount != 1 {
+            // the response says by its own header that it carries no / several questions
+            return Err("question-count-not-1");
+        }
         if v.questions.is_empty() {
             return Err("no-question");
         }
@@ -1026,6 +1068,16 @@ impl DnsH {
                     n_fail += 1;
                     self.qs[k].status = Status::Failed;
                     self.qs[k].edges.clear();
+                    if msg.is_none() && self.qs[k].cur_dst.is_empty() {
+                        // failed by time without ever transmitting: on the unimpaired link the first
+                        // datagram leaves in the poll that follows start_query and the first server
+                        // has 10 s from then
+                        let d = format!(
+                            "query {} (start_query at t={} us) reported Failed at t={} us without a single datagram on the wire",
+                            k, self.qs[k].started, self.now
+                        );
+                        self.fail(out, "timing/failed-by-timeout-without-any-transmission", d);
+                    }
                     if msg.is_none() && !self.qs[k].cur_dst.is_empty() {
                         // Failure without a response in this step = failure by time-out (the other
                         // paths to Failure in dispatch - unspecified server address, no source
@@ -1275,7 +1327,7 @@ impl Harness for DnsH {
         let h = sockets.add(sock);
         let mut qs = vec![];
         for (i, (name, t)) in ci.queries.iter().enumerate() {
-            let later = ci.staggered && i > 0;
+            let later = i >= ci.n0;
             let handle = if later {
                 None
             } else {
@@ -1360,10 +1412,12 @@ impl Harness for DnsH {
             v.push((Ev::RunOut, 1));
         }
         if unstarted {
-            v.push((Ev::StartQuery2(false), 1));
-            // half a second later, provided no poll is due before (time only passes up to poll_at)
-            if self.next_poll.map_or(true, |p| self.now + SEC / 2 < p) {
-                v.push((Ev::StartQuery2(true), 1));
+            // an idle gap is only possible while no poll is due before its end (time passes without
+            // a poll only up to poll_at; with no pending query poll_at is None: arbitrary idle time)
+            for gap_ms in START_GAPS_MS {
+                if gap_ms == 0 || self.next_poll.map_or(true, |p| self.now + gap_ms as i64 * 1000 < p) {
+                    v.push((Ev::StartNext(gap_ms), 1));
+                }
             }
         }
         match self.ci().net {
@@ -1446,10 +1500,8 @@ impl Harness for DnsH {
                 }
                 C_LINK
             }
-            Ev::StartQuery2(late) => {
-                if *late {
-                    self.now += SEC / 2;
-                }
+            Ev::StartNext(gap_ms) => {
+                self.now += *gap_ms as i64 * 1000;
                 if let Some(k) = self.qs.iter().position(|q| q.status == Status::NotStarted) {
                     let (name, t) = self.ci().queries[k].clone();
                     let r = self.sockets.get_mut::<dns::Socket>(self.h).start_query(self.iface.context(), &name, qtype_of(t));
@@ -1546,7 +1598,7 @@ fn describe_event(h: &DnsH, ev: &Ev) -> String {
         Ev::ArpReply(ip) => format!("ArpReply {} is-at {}", ipstr(ip), hex(&mac_of(*ip))),
         Ev::Unblock => "Unblock (device accepts frames again)".into(),
         Ev::Block => "Block (device refuses transmit)".into(),
-        Ev::StartQuery2(late) => format!("StartQuery2 at t={} us, then poll", h.now + if *late { SEC / 2 } else { 0 }),
+        Ev::StartNext(gap_ms) => format!("idle for {} ms without a poll, start_query at t={} us, then poll", gap_ms, h.now + *gap_ms as i64 * 1000),
         Ev::Resp(k, s) => {
             let m = h.build(*k as usize, s);
             format!(
